@@ -324,7 +324,7 @@ def model_specs(rng, quick, seed):
     return specs
 
 
-def run(ctx):
+def _run(ctx):
     quick = ctx.tier == 'quick'
     status = G.generate(ctx, {'cond'})
     for k, v in status.items():
@@ -528,3 +528,16 @@ def run(ctx):
     ctx.extra['cases_with_linear_algebra_tolerance_above_1e-6 (ill-conditioned conditioning block)'] = int(loose)
     ctx.extra['cases_agreeing'] = n_agree
     ctx.extra['cases_compared'] = len(meta)
+
+
+def run(ctx):
+    """the check proper, then the history/recovery oracle (always, also after a broken translation)"""
+    from .. import extra_oracles
+    try:
+        _run(ctx)
+    finally:
+        try:
+            extra_oracles.gm_refit_history(ctx, 'C12')
+        except Exception as ex:       # the oracle itself must never hide the result of the check proper
+            ctx.obligation('oracle:extra:raised', False, 'correspondence', repr(ex))
+            ctx.violation('oracle:extra:raised:' + type(ex).__name__, 'history/recovery oracle raised ' + repr(ex), {'repro': '# see tools/vf/extra_oracles.py'})
